@@ -21,8 +21,8 @@ func init() {
 		Technique: "map-order effect classification (syntax tree + types) of every `range` over a map in the config-loading, routing and balancing packages, with a reviewed exception table whose entries carry machine-checked side conditions",
 		Meta: core.Meta{
 			Level:       "other",
-			Explanation: "Enumerates every `for … range <map>` of bfe_config/**, bfe_route/** and bfe_balance/** and classifies each effect of the loop body on state that outlives the iteration: order-insensitive are stores keyed by the range key itself, keyed stores of a constant, keyed stores dominated by a reject-duplicate test on the same container and key, commutative numeric accumulation, constant flag assignment, early return of an error or of constants, effects confined to the per-key element; order-sensitive (violations) are appends to an outer slice that is not sorted afterwards in the same function, keyed stores / ordered-sink calls (Trie.Set, radix Insert) whose key is not the range key and has no duplicate guard, string concatenation, non-constant assignment to an outer variable, returning a loop element. Anything not classifiable must be in the reviewed table (one entry per function+effect, with a reason; some entries are valid only while a checked side condition holds, e.g. the loader rejects hosts that are equal after lower-casing). Not covered: nondeterminism from other sources (time, rand — see C01/C02), order effects hidden inside callees that receive only per-key arguments.",
-			RuleText:    "obligations = one per effect site of each map-range loop (keyed by function, effect kind, target), plus the side conditions of the reviewed entries; loop count asserted >= 50",
+			Explanation: "Enumerates every `for … range <map>` of bfe_config/**, bfe_route/** and bfe_balance/** and classifies each effect of the loop body on state that outlives the iteration: order-insensitive are stores keyed by the range key itself, keyed stores of a constant, keyed stores guarded by a reject-duplicate test on the same container and key, commutative numeric accumulation, constant flag assignment, early return of an error or of constants, effects confined to the per-key element, effects inside `switch <range key> { case <const> }` / `if <range key> == <const>`, appends to a list that is only counted and joined into an error or log message; order-sensitive (violations) are appends to an outer slice that does not reach a sort, keyed stores / ordered-sink calls (Trie.Set, radix Insert) whose key is not the range key and has no duplicate guard, string concatenation, non-constant assignment to an outer variable, returning a loop element. The loops and statements are enumerated on the syntax tree (objects, not names); the decisions that depend on how something is spelled are taken on the SSA form, joined by position: the duplicate guard is a branch condition holding at the MapUpdate (comma-ok or zero-value test of a Lookup on the same map and key, any operand order, polarity, if/else/switch shape, named boolean) whose 'present' edge does not come back to the store; 'sorted afterwards' is the value flow of the append result into a sort.* operand (through phis, named intermediates, sorter literals, same-package callees and the results of private helpers); the host-key side condition compares the backward transformer chains of the Trie.Set key in buildHostRoute and of the duplicate-tested key in HostRuleConfLoad (entering same-package helpers); the list comparators are matched by which parameter indexes the list and which field is read last. Anything not classifiable must be in the reviewed table (one entry per function+effect, keyed with local names replaced by their types so that renaming a local keeps the entry valid; entries carry machine-checked side conditions). Not covered: nondeterminism from other sources (time, rand — see C01/C02), order effects hidden inside callees (a plain function call in a loop body is not entered, whatever it receives), a duplicate test hidden in a predicate helper (`if isDup(m, k)`) or a keyed store moved on its own into a helper (reported as unguarded), `<range key> == <const>` held in a named boolean (reported).",
+			RuleText:    "obligations = one per effect site of each map-range loop (keyed by function, effect kind, target), plus the side conditions of the reviewed entries; loop count asserted >= 45 (50 reviewed; extracting duplicated loops into a helper may remove some)",
 		},
 		Run: runC14,
 		Mutants: []Mutant{
@@ -36,6 +36,16 @@ func init() {
 			{Name: "gslb-init-unsorted", File: "bfe_balance/bal_gslb/bal_gslb.go", Old: "	// sort list to guarantee same order, since map iteration is not in order\n	sort.Sort(SubClusterListSorter{bal.subClusters})\n", New: "", Expect: "append"},
 			{Name: "first-match-return", File: "bfe_config/bfe_route_conf/vip_rule_conf/vip_table_load.go", Old: "func VipRuleConfLoad(filename string) (VipConf, error) {", New: "func firstProduct(m map[string][]string) string {\n	for p := range m {\n		return p\n	}\n	return \"\"\n}\n\nfunc VipRuleConfLoad(filename string) (VipConf, error) {", Expect: "return-element"},
 			{Name: "update-unsorted-new", File: "bfe_balance/bal_slb/bal_rr.go", Old: "	sort.Strings(newKeys)\n", New: "", Expect: "append"},
+			// behaviour-preserving edits (one per class of refactoring the rules were made robust against): the verdict must not change
+			{Name: "neutral-renamed-error-list", File: "bfe_balance/bal_table.go", Old: "	fails := make([]string, 0)\n\n	for clusterName, gslbConf := range *gslbConfs.Clusters {\n		bal := bal_gslb.NewBalanceGslb(clusterName)\n		err := bal.Init(gslbConf)\n		if err != nil {\n			log.Logger.Error(\"BalTable.gslbInit():err[%s] in bal_gslb.GslbInit() for %s\",\n				err.Error(), clusterName)\n			fails = append(fails, clusterName)\n			continue\n		}\n		t.balTable[clusterName] = bal\n	}\n\n	// update versions\n	t.versions.GslbConfTimeStamp = *gslbConfs.Ts\n	t.versions.GslbConfSrc = *gslbConfs.Hostname\n\n	if len(fails) != 0 {\n		return fmt.Errorf(\"error in ClusterTable.gslbInit() for [%s]\",\n			strings.Join(fails, \",\"))\n	}\n	return nil\n", New: "	failedClusters := make([]string, 0)\n\n	for name, clusterConf := range *gslbConfs.Clusters {\n		balancer := bal_gslb.NewBalanceGslb(name)\n		if err := balancer.Init(clusterConf); err == nil {\n			t.balTable[name] = balancer\n		} else {\n			log.Logger.Error(\"BalTable.gslbInit():err[%s] in bal_gslb.GslbInit() for %s\",\n				err.Error(), name)\n			failedClusters = append(failedClusters, name)\n		}\n	}\n\n	// update versions\n	t.versions.GslbConfTimeStamp = *gslbConfs.Ts\n	t.versions.GslbConfSrc = *gslbConfs.Hostname\n\n	if len(failedClusters) == 0 {\n		return nil\n	}\n	joined := strings.Join(failedClusters, \",\")\n	return fmt.Errorf(\"error in ClusterTable.gslbInit() for [%s]\", joined)\n", Silent: true},
+			{Name: "neutral-dup-test-named-inverted", File: "bfe_config/bfe_route_conf/vip_rule_conf/vip_table_load.go", Old: "			if _, ok := vipConf.VipMap[vip]; ok {\n				return vipConf, fmt.Errorf(\"vip duplicate for %s\", vip)\n			}\n			vipConf.VipMap[vip] = product\n", New: "			_, present := vipConf.VipMap[vip]\n			absent := !present\n			if absent {\n				vipConf.VipMap[vip] = product\n			} else {\n				return vipConf, fmt.Errorf(\"vip duplicate for %s\", vip)\n			}\n", Silent: true},
+			{Name: "neutral-trie-key-helpers", File: "bfe_route/host_table.go", Old: "func buildHostRoute(conf host_rule_conf.HostConf) *trie.Trie {\n	hostTrie := trie.NewTrie()\n\n	for host, tag := range conf.HostMap {\n		host = strings.ToLower(host)\n		product := conf.HostTagMap[tag]\n		hostTrie.Set(strings.Split(string_reverse.ReverseFqdnHost(host), \".\"), route{product: product, tag: tag})\n	}\n\n	return hostTrie\n}\n", New: "func trieLabels(name string) []string {\n	folded := strings.ToLower(name)\n	return strings.Split(string_reverse.ReverseFqdnHost(folded), \".\")\n}\n\nfunc buildHostRoute(conf host_rule_conf.HostConf) *trie.Trie {\n	root := trie.NewTrie()\n\n	for hostName, hostTag := range conf.HostMap {\n		hostRoute := route{product: conf.HostTagMap[hostTag], tag: hostTag}\n		labels := trieLabels(hostName)\n		root.Set(labels, hostRoute)\n	}\n\n	return root\n}\n", Silent: true},
+			{Name: "neutral-loader-named-switch", File: "bfe_config/bfe_route_conf/host_rule_conf/host_table_load.go", Old: "			hostName = strings.TrimSuffix(strings.ToLower(hostName), \".\")\n			if host2HostTag[hostName] != \"\" {\n				return conf, fmt.Errorf(\"host duplicate for %s\", hostName)\n			}\n			host2HostTag[hostName] = hostTag\n", New: "			lowered := strings.ToLower(hostName)\n			canonical := strings.TrimSuffix(lowered, \".\")\n			previous := host2HostTag[canonical]\n			switch {\n			case previous == \"\":\n				host2HostTag[canonical] = hostTag\n			default:\n				return conf, fmt.Errorf(\"host duplicate for %s\", canonical)\n			}\n", Silent: true},
+			{Name: "neutral-sort-named-intermediate", File: "bfe_balance/bal_slb/bal_rr.go", Old: "	sort.Strings(newKeys)\n	for _, key := range newKeys {\n", New: "	ordered := newKeys\n	sort.Sort(sort.StringSlice(ordered))\n	for _, key := range ordered {\n", Silent: true},
+			{Name: "neutral-switch-to-if-chain", File: "bfe_config/bfe_tls_conf/tls_rule_conf/tls_rule_conf_load.go", Old: "		switch key {\n		case \"level\":\n			if params.Level, err = strconv.Atoi(vals[0]); err != nil {\n				return params, fmt.Errorf(\"invalid level: %s\", vals[0])\n			}\n		case \"mcs\":\n			if params.Mcs, err = strconv.Atoi(vals[0]); err != nil {\n				return params, fmt.Errorf(\"invalid mcs: %s\", vals[0])\n			}\n		case \"isw\":\n			if params.Isw, err = strconv.Atoi(vals[0]); err != nil {\n				return params, fmt.Errorf(\"invalid isw: %s\", vals[0])\n			}\n		case \"rate\":\n			if params.Rate, err = strconv.Atoi(vals[0]); err != nil {\n				return params, fmt.Errorf(\"invalid rate: %s\", vals[0])\n			}\n		case \"pp\":\n			if params.PP, err = strconv.Atoi(vals[0]); err != nil {\n				return params, fmt.Errorf(\"invalid pp: %s\", vals[0])\n			}\n		default:\n			return params, fmt.Errorf(\"unknown params: %s\", key)\n		}\n", New: "		if key == \"level\" {\n			if params.Level, err = strconv.Atoi(vals[0]); err != nil {\n				return params, fmt.Errorf(\"invalid level: %s\", vals[0])\n			}\n		} else if key == \"mcs\" {\n			if params.Mcs, err = strconv.Atoi(vals[0]); err != nil {\n				return params, fmt.Errorf(\"invalid mcs: %s\", vals[0])\n			}\n		} else if \"isw\" == key {\n			if params.Isw, err = strconv.Atoi(vals[0]); err != nil {\n				return params, fmt.Errorf(\"invalid isw: %s\", vals[0])\n			}\n		} else if key == \"rate\" {\n			if params.Rate, err = strconv.Atoi(vals[0]); err != nil {\n				return params, fmt.Errorf(\"invalid rate: %s\", vals[0])\n			}\n		} else if key == \"pp\" {\n			if params.PP, err = strconv.Atoi(vals[0]); err != nil {\n				return params, fmt.Errorf(\"invalid pp: %s\", vals[0])\n			}\n		} else {\n			return params, fmt.Errorf(\"unknown params: %s\", key)\n		}\n", Silent: true},
+			{Name: "neutral-comparator-renamed-mirrored", File: "bfe_balance/bal_slb/bal_rr.go", Old: "func (s BackendListSorter) Less(i, j int) bool {\n	return s.l[i].backend.AddrInfo < s.l[j].backend.AddrInfo\n}\n", New: "func (sorter BackendListSorter) Less(a, b int) bool {\n	left, right := sorter.l[a].backend, sorter.l[b].backend\n	return right.AddrInfo > left.AddrInfo\n}\n", Silent: true},
+			{Name: "neutral-search-loop-to-method", File: "bfe_route/server_data_conf.go", Old: "func (s *ServerDataConf) check() error {\n	// check product consistency in host and route\n	for product1 := range s.HostTable.productAdvancedRouteTable {\n		find := false\n		for _, product2 := range s.HostTable.hostTagTable {\n			if product1 == product2 {\n				find = true\n				break\n			}\n		}\n		if !find {\n			return fmt.Errorf(\"product[%s] in route should exist in host!\", product1)\n		}\n	}\n\n	for product1 := range s.HostTable.productBasicRouteTree {\n		find := false\n		for _, product2 := range s.HostTable.hostTagTable {\n			if product1 == product2 {\n				find = true\n				break\n			}\n		}\n		if !find {\n			return fmt.Errorf(\"product[%s] in route should exist in host!\", product1)\n		}\n	}\n\n	// check cluster_name of advanced rule in route and cluster_conf\n	for _, routeRules := range s.HostTable.productAdvancedRouteTable {\n		for _, routeRule := range routeRules {\n			if _, err := s.ClusterTable.Lookup(routeRule.ClusterName); err != nil {\n				return fmt.Errorf(\"cluster[%s] in advanced route should exist in cluster_conf\",\n					routeRule.ClusterName)\n			}\n		}\n	}\n", New: "// hostTagFor reports whether some host tag belongs to the product.\nfunc (s *ServerDataConf) hostTagFor(product string) bool {\n	for _, owner := range s.HostTable.hostTagTable {\n		if owner == product {\n			return true\n		}\n	}\n	return false\n}\n\n// clusterKnown reports whether the cluster exists in cluster_conf.\nfunc (s *ServerDataConf) clusterKnown(name string) bool {\n	_, err := s.ClusterTable.Lookup(name)\n	return err == nil\n}\n\nfunc (s *ServerDataConf) check() error {\n	// check product consistency in host and route\n	for product1 := range s.HostTable.productAdvancedRouteTable {\n		find := false\n		for _, product2 := range s.HostTable.hostTagTable {\n			if product1 == product2 {\n				find = true\n				break\n			}\n		}\n		if !find {\n			return fmt.Errorf(\"product[%s] in route should exist in host!\", product1)\n		}\n	}\n\n	for routed := range s.HostTable.productBasicRouteTree {\n		if s.hostTagFor(routed) {\n			continue\n		}\n		return fmt.Errorf(\"product[%s] in route should exist in host!\", routed)\n	}\n\n	// check cluster_name of advanced rule in route and cluster_conf\n	for _, routeRules := range s.HostTable.productAdvancedRouteTable {\n		for _, routeRule := range routeRules {\n			if !s.clusterKnown(routeRule.ClusterName) {\n				return fmt.Errorf(\"cluster[%s] in advanced route should exist in cluster_conf\",\n					routeRule.ClusterName)\n			}\n		}\n	}\n", Silent: true},
+			{Name: "neutral-update-range-loop-logging", File: "bfe_balance/bal_slb/bal_rr.go", Old: "	for index := 0; index < len(brr.backends); index++ {\n		backendRR := brr.backends[index]\n\n", New: "	for _, backendRR := range brr.backends {\n		log.Logger.Debug(\"bal[%s] update: visiting backend %s\", brr.Name, backendRR.backend.GetAddrInfo())\n\n", Silent: true},
 		},
 	})
 }
@@ -45,10 +55,12 @@ type mapLoop struct {
 	fn   string
 	rs   *ast.RangeStmt
 	body *ast.BlockStmt
+	ssa  *ssa.Function // the function (declaration) that contains the loop; nil if not built
 }
 
 type effect struct {
 	kind, target, why string
+	ctarget           string // target with the names of locals/parameters replaced by their types
 	pos               token.Pos
 	sensitive         bool
 	undecided         bool
@@ -56,6 +68,7 @@ type effect struct {
 
 func runC14(c *core.Ctx) {
 	var loops []mapLoop
+	ix := newConfIdx(c.P)
 	for _, pk := range c.P.Pkgs {
 		rel := strings.TrimPrefix(pk.PkgPath, core.ModPath+"/")
 		if !(strings.HasPrefix(rel, "bfe_config") || strings.HasPrefix(rel, "bfe_route") || strings.HasPrefix(rel, "bfe_balance")) {
@@ -71,6 +84,10 @@ func runC14(c *core.Ctx) {
 				if fd.Recv != nil && len(fd.Recv.List) == 1 {
 					name = rel + "." + recvName(fd.Recv.List[0].Type) + "." + fd.Name.Name
 				}
+				var sfn *ssa.Function
+				if fo, isF := pk.TypesInfo.Defs[fd.Name].(*types.Func); isF {
+					sfn = c.P.SSA.FuncValue(fo)
+				}
 				ast.Inspect(fd.Body, func(n ast.Node) bool {
 					rs, ok := n.(*ast.RangeStmt)
 					if !ok {
@@ -78,7 +95,7 @@ func runC14(c *core.Ctx) {
 					}
 					if t := pk.TypesInfo.TypeOf(rs.X); t != nil {
 						if _, isMap := t.Underlying().(*types.Map); isMap {
-							loops = append(loops, mapLoop{pk, name, rs, fd.Body})
+							loops = append(loops, mapLoop{pk, name, rs, fd.Body, sfn})
 						}
 					}
 					return true
@@ -91,41 +108,92 @@ func runC14(c *core.Ctx) {
 	// published (shared with C02), and the backend list of a sub-cluster must be rebuilt in an
 	// order derived from the new configuration.
 	publishedSorted(c, "published-canonical")
-	checkComparators(c, "canonical-key")
+	c14Comparators(c, "canonical-key")
 	if up := c.P.Func("bfe_balance/bal_slb", "BalanceRR.Update"); up == nil {
 		c.Missing("bfe_balance/bal_slb.BalanceRR.Update")
 	} else if bf, ok := c.P.Obj("bfe_balance/bal_slb", "BalanceRR.backends").(*types.Var); ok {
-		for _, st := range core.FieldStores([]*ssa.Function{up}, bf) {
+		// Update and the methods it calls on its receiver (a body moved into `brr.rebuild(...)`
+		// is still Update)
+		ufns := recvCallees(up, 2)
+		// fromOld: v is (may be) an element of the list read from the backends field
+		var fromOld func(v ssa.Value, seen map[ssa.Value]bool) bool
+		fromOld = func(v ssa.Value, seen map[ssa.Value]bool) bool {
+			if v == nil || seen[v] {
+				return false
+			}
+			seen[v] = true
+			switch t := v.(type) {
+			case *ssa.FieldAddr:
+				return core.FieldObj(t.X, t.Field) == bf
+			case *ssa.UnOp:
+				return t.Op == token.MUL && fromOld(t.X, seen)
+			case *ssa.IndexAddr:
+				return fromOld(t.X, seen)
+			case *ssa.Index:
+				return fromOld(t.X, seen)
+			case *ssa.Slice:
+				return fromOld(t.X, seen)
+			case *ssa.ChangeType:
+				return fromOld(t.X, seen)
+			case *ssa.Extract:
+				if nx, isN := t.Tuple.(*ssa.Next); isN {
+					if rg, isR := nx.Iter.(*ssa.Range); isR {
+						return fromOld(rg.X, seen)
+					}
+				}
+			case *ssa.Phi:
+				for _, e := range t.Edges {
+					if fromOld(e, seen) {
+						return true
+					}
+				}
+			}
+			return false
+		}
+		for _, st := range core.FieldStores(ufns, bf) {
 			// canonical if the stored list was sorted as a whole before the store
 			sortedWhole := false
-			for _, sc := range core.Calls(up, "sort.Sort") {
+			for _, sc := range core.Calls(st.Fn, "sort.Sort") {
 				if l := sortedList(sc); l != nil && core.StripConv(l) == core.StripConv(st.Store.Val) && core.Dominates(sc.(ssa.Instruction), st.Store) {
 					sortedWhole = true
 				}
 			}
 			// or if no element of the old list is carried over in its old position (list rebuilt from the config in config order)
 			carriesOld := false
-			core.Instrs(up, func(in ssa.Instruction) {
-				if call, isCall := in.(*ssa.Call); isCall {
-					for _, e := range appendedElems(call) {
-						if strings.Contains(core.Render(e), "brr.backends[") {
-							carriesOld = true
+			for _, g := range ufns {
+				core.Instrs(g, func(in ssa.Instruction) {
+					if call, isCall := in.(*ssa.Call); isCall {
+						for _, e := range appendedElems(call) {
+							if fromOld(e, map[ssa.Value]bool{}) {
+								carriesOld = true
+							}
+						}
+						// append(new, old...) / append(old, x): the old list as a whole
+						if b, isB := call.Call.Value.(*ssa.Builtin); isB && b.Name() == "append" {
+							for _, a := range call.Call.Args {
+								if fromOld(a, map[ssa.Value]bool{}) {
+									carriesOld = true
+								}
+							}
 						}
 					}
-				}
-			})
+				})
+			}
 			c.Check("published-canonical", "bfe_balance/bal_slb.BalanceRR.Update:backends", st.Store.Pos(), sortedWhole || !carriesOld,
 				"BalanceRR.Update publishes surviving backends in the order they had before the reload followed by the new ones: the list order (observable through smooth-WRR tie-breaking and WrrSimple's scan order) depends on the reload history, whereas a fresh Init of the same configuration uses the configuration's order")
 		}
 	}
-	if len(loops) < 50 {
-		c.Check("instances", "map-range-loops", token.NoPos, false, fmt.Sprintf("only %d map-range loops found in bfe_config/bfe_route/bfe_balance; 50 were reviewed", len(loops)))
+	// anti-vacuity floor: 50 loops were reviewed. The floor is 45, not 50: merging duplicated
+	// inner loops into one helper (or fusing two loops over the same map) legitimately removes
+	// a loop; the floor only has to notice a scan that no longer sees the packages.
+	if len(loops) < 45 {
+		c.Check("instances", "map-range-loops", token.NoPos, false, fmt.Sprintf("only %d map-range loops found in bfe_config/bfe_route/bfe_balance; 50 were reviewed (floor 45)", len(loops)))
 	}
 	c.Note("%d map-range loops classified", len(loops))
 	ord := map[string]int{}
 	for _, l := range loops {
 		c.Analysed(l.fn)
-		effs := classifyMapLoop(l)
+		effs := classifyMapLoop(l, ix)
 		if len(effs) == 0 {
 			ord[l.fn+"|pure"]++
 			c.Check("map-range", fmt.Sprintf("%s:pure#%d", l.fn, ord[l.fn+"|pure"]), l.rs.Pos(), true, "no effect outlives an iteration")
@@ -137,10 +205,12 @@ func runC14(c *core.Ctx) {
 			ok := !e.sensitive && !e.undecided
 			why := e.why
 			if !ok {
-				if r, reviewed := c14Reviewed[id]; reviewed {
+				// the reviewed table is keyed by function, effect kind and the target with local
+				// names replaced by their types, so renaming a local does not invalidate an entry
+				if r, reviewed := c14Reviewed[l.fn+":"+e.kind+":"+e.ctarget]; reviewed {
 					sideOK, sideWhy := true, ""
 					if r.side != nil {
-						sideOK, sideWhy = r.side(c)
+						sideOK, sideWhy = r.side(c, ix)
 					}
 					if sideOK {
 						ok = true
@@ -157,181 +227,155 @@ func runC14(c *core.Ctx) {
 
 type c14Exception struct {
 	reason string
-	side   func(c *core.Ctx) (bool, string)
+	side   func(c *core.Ctx, ix *confIdx) (bool, string)
 }
 
 // c14Reviewed: effects the classifier cannot decide by shape, each with the
-// reason it is order-insensitive (key = function:kind:target).
+// reason it is order-insensitive (key = function:kind:target, the target printed with the
+// names of locals replaced by their types - see canonExpr). The `fails = append(fails, name)`
+// lists of bal_table.go are no longer listed: "only counted and joined into an error / log
+// message" is decided on the value flow (sliceOnlyErrorText).
 var c14Reviewed = map[string]c14Exception{
-	"bfe_balance.BalTable.gslbInit:append:fails":                                 {reason: "names are only joined into an error message; accept/reject does not depend on their order"},
-	"bfe_balance.BalTable.backendInit:append:fails":                              {reason: "names are only joined into an error message"},
-	"bfe_balance.BalTable.BalTableReload:append:fails":                           {reason: "names are only joined into an error message"},
-	"bfe_route.buildHostRoute:ordered-sink:hostTrie.Set":                         {reason: "the trie key is lower(host); HostRuleConfLoad rejects two hosts that are equal after lower-casing, so keys are distinct", side: hostLoaderFoldsCase},
-	"bfe_route.buildHostRoute:assign:host":                                       {reason: "loop variable re-assigned (per-iteration local)"},
-	"bfe_config/bfe_tls_conf/tls_rule_conf.ClientCALoad:keyed-store:clientCAMap": {reason: "stored only when the key is absent and the value is loaded from the CA named by the key itself, so every writer of a key stores an equal value"},
+	"bfe_route.buildHostRoute:ordered-sink:<*trie.Trie>.Set":                                     {reason: "the trie key is lower(host); HostRuleConfLoad rejects two hosts that are equal after lower-casing, so keys are distinct", side: hostLoaderFoldsCase},
+	"bfe_config/bfe_tls_conf/tls_rule_conf.ClientCALoad:keyed-store:<map[string]*x509.CertPool>": {reason: "stored only when the key is absent and the value is loaded from the CA named by the key itself, so every writer of a key stores an equal value"},
 }
 
 // hostLoaderFoldsCase: the host trie is keyed by t(host) where t is the chain of string
 // transformers buildHostRoute applies to a configured host name. Every transformer of that
 // chain that is not injective (table below) must be mirrored by a normalisation HostRuleConfLoad
 // applies to the name before its duplicate test - otherwise two configured names collapse onto
-// one trie key and the map iteration order decides which one wins.
+// one trie key and the map iteration order decides which one wins. Both chains are read off the
+// SSA value flow (backwards from the key operand), so renamed locals, named intermediates,
+// reordered statements and helpers extracted on either side do not matter.
 var hostKeyTransformers = map[string]string{
-	"strings.ToLower":                "strings.ToLower",       // folds case
-	"string_reverse.ReverseFqdnHost": "strings.TrimSuffix(.)", // reverses and drops one trailing dot (FQDN form)
-	"strings.Split":                  "",                      // injective
+	"strings.ToLower":                         "strings.ToLower",       // folds case
+	"bfe_util/string_reverse.ReverseFqdnHost": "strings.TrimSuffix(.)", // reverses and drops one trailing dot (FQDN form)
+	"strings.Split":                           "",                      // injective
 }
 
-func hostLoaderFoldsCase(c *core.Ctx) (bool, string) {
-	// transformer chain of the builder
-	bd, bpk := c.P.FuncDecl("bfe_route", "buildHostRoute")
-	if bd == nil {
+// fullChains is keyChains continued, at a parameter of a private helper, with the argument at
+// every call site of that helper.
+func fullChains(ix *confIdx, v ssa.Value, depth int) []keyChain {
+	var out []keyChain
+	for _, ch := range keyChains(v) {
+		p, isParam := ch.leaf.(*ssa.Parameter)
+		if !isParam || depth <= 0 || ch.bad != "" {
+			out = append(out, ch)
+			continue
+		}
+		args, _, ok := ix.argsFor(p)
+		if !ok || len(args) == 0 {
+			out = append(out, ch)
+			continue
+		}
+		for _, a := range args {
+			for _, sub := range fullChains(ix, a, depth-1) {
+				out = append(out, keyChain{steps: append(append([]chainStep(nil), ch.steps...), sub.steps...), leaf: sub.leaf, bad: sub.bad})
+			}
+		}
+	}
+	return out
+}
+
+func hostLoaderFoldsCase(c *core.Ctx, ix *confIdx) (bool, string) {
+	// transformer chain of the builder: every Trie.Set of buildHostRoute and its private helpers
+	bf := c.P.Func("bfe_route", "buildHostRoute")
+	if bf == nil {
 		return false, "buildHostRoute not found"
 	}
 	need := map[string]bool{}
-	bad := ""
-	// values derived from the range key of the loop over the configured hosts (followed through
-	// assignments in source order, so renamed locals and named intermediates are recognised)
-	derived := map[types.Object]bool{}
-	mentions := func(e ast.Expr) bool {
-		found := false
-		ast.Inspect(e, func(m ast.Node) bool {
-			if id, isI := m.(*ast.Ident); isI && derived[bpk.TypesInfo.ObjectOf(id)] {
-				found = true
+	nSet := 0
+	for _, g := range ix.regionList(bf) {
+		for _, ci := range core.Calls(g, "bfe_route/trie.Trie.Set") {
+			if len(ci.Common().Args) < 2 {
+				continue
 			}
-			return true
-		})
-		return found
-	}
-	ast.Inspect(bd.Body, func(n ast.Node) bool {
-		switch x := n.(type) {
-		case *ast.RangeStmt:
-			if tv, okT := bpk.TypesInfo.Types[x.X]; okT {
-				if _, isMap := tv.Type.Underlying().(*types.Map); isMap {
-					if id, isI := x.Key.(*ast.Ident); isI && id.Name != "_" {
-						derived[bpk.TypesInfo.ObjectOf(id)] = true
+			nSet++
+			for _, ch := range fullChains(ix, ci.Common().Args[1], 2) {
+				if ch.bad != "" {
+					return false, "the derivation of the trie key in buildHostRoute cannot be followed (" + ch.bad + ")"
+				}
+				for _, st := range ch.steps {
+					norm, known := hostKeyTransformers[st.callee]
+					if !known {
+						return false, "buildHostRoute derives the trie key through " + st.callee + ", which is not in the reviewed transformer table (is it injective?)"
+					}
+					if norm != "" {
+						need[norm] = true
 					}
 				}
-			}
-		case *ast.AssignStmt:
-			for i, r := range x.Rhs {
-				if mentions(r) && i < len(x.Lhs) {
-					if id, isI := x.Lhs[i].(*ast.Ident); isI {
-						derived[bpk.TypesInfo.ObjectOf(id)] = true
-					}
+				if !rangeKeyOfMap(ch.leaf) {
+					return false, "the trie key in buildHostRoute is not derived from the key of the configured host map (" + core.Render(ch.leaf) + ")"
 				}
-			}
-		case *ast.CallExpr:
-			if tv, isConv := bpk.TypesInfo.Types[x.Fun]; isConv && tv.IsType() {
-				return true
-			}
-			fn := types.ExprString(x.Fun)
-			uses := false
-			for _, a := range x.Args {
-				if mentions(a) {
-					uses = true
-				}
-			}
-			if !uses || strings.HasSuffix(fn, ".Set") {
-				return true
-			}
-			norm, known := hostKeyTransformers[fn]
-			if !known {
-				bad = fn
-				return true
-			}
-			if norm != "" {
-				need[norm] = true
 			}
 		}
-		return true
-	})
-	if bad != "" {
-		return false, "buildHostRoute derives the trie key through " + bad + ", which is not in the reviewed transformer table (is it injective?)"
+	}
+	if nSet == 0 {
+		return false, "no Trie.Set found in buildHostRoute"
 	}
 	if len(need) == 0 {
 		return false, "buildHostRoute no longer normalises the host name in a form the rule can follow"
 	}
+	// the loader: every store into the host map (type of HostConf.HostMap) made by
+	// HostRuleConfLoad or a same-package function it calls is preceded by a reject-duplicate
+	// test on the same key, and that key went through the needed normalisers
 	const lpkg = "bfe_config/bfe_route_conf/host_rule_conf"
-	fd0, pk := c.P.FuncDecl(lpkg, "HostRuleConfLoad")
-	if fd0 == nil {
+	lf := c.P.Func(lpkg, "HostRuleConfLoad")
+	if lf == nil {
 		return false, "HostRuleConfLoad not found"
 	}
-	// the loader and the same-package helpers it calls (the conversion loops may live in a helper)
-	var bodies []*ast.BlockStmt
-	if lf := c.P.Func(lpkg, "HostRuleConfLoad"); lf != nil {
-		for _, f := range core.TransitiveCallees(lf, 3) {
-			if core.FuncPkgRel(f) != lpkg || f.Parent() != nil {
-				continue
-			}
-			if d, _ := c.P.FuncDecl(lpkg, strings.TrimPrefix(core.FuncKey(f), lpkg+".")); d != nil && d.Body != nil {
-				bodies = append(bodies, d.Body)
-			}
+	hm, _ := c.P.Obj(lpkg, "HostConf.HostMap").(*types.Var)
+	if hm == nil {
+		return false, "HostConf.HostMap not found"
+	}
+	nStore := 0
+	why := ""
+	for _, g := range core.TransitiveCallees(lf, 3) {
+		if core.FuncPkgRel(g) != lpkg {
+			continue
 		}
-	}
-	if len(bodies) == 0 {
-		bodies = append(bodies, fd0.Body)
-	}
-	ok := false
-	missing := ""
-	for _, body := range bodies {
-		ast.Inspect(body, func(n ast.Node) bool {
-			rs, isR := n.(*ast.RangeStmt)
-			if !isR {
-				return true
+		core.Instrs(g, func(in ssa.Instruction) {
+			mu, ok := in.(*ssa.MapUpdate)
+			if !ok || why != "" || !types.Identical(mu.Map.Type(), hm.Type()) {
+				return
 			}
-			v, _ := rs.Value.(*ast.Ident)
-			if v == nil {
-				return true
+			nStore++
+			if !dupRejected(mu) {
+				why = "HostRuleConfLoad has no reject-duplicate test on the normalised host name"
+				return
 			}
-			vobj := pk.TypesInfo.ObjectOf(v)
-			// leading statement(s) v = f(v): collect the normalisers applied before any index by v
-			have := map[string]bool{}
-			for _, st := range rs.Body.List {
-				if as, isA := st.(*ast.AssignStmt); isA && len(as.Lhs) == 1 && len(as.Rhs) == 1 {
-					if id, isI := as.Lhs[0].(*ast.Ident); isI && pk.TypesInfo.ObjectOf(id) == vobj {
-						ast.Inspect(as.Rhs[0], func(m ast.Node) bool {
-							call, isC := m.(*ast.CallExpr)
-							if !isC {
-								return true
+			for _, ch := range fullChains(ix, mu.Key, 2) {
+				have := map[string]bool{}
+				for _, st := range ch.steps {
+					switch st.callee {
+					case "strings.ToLower":
+						have["strings.ToLower"] = true
+					case "strings.TrimSuffix":
+						if len(st.call.Call.Args) == 2 {
+							if suf, isStr := core.ConstString(st.call.Call.Args[1]); isStr && suf == "." {
+								have["strings.TrimSuffix(.)"] = true
 							}
-							switch types.ExprString(call.Fun) {
-							case "strings.ToLower":
-								have["strings.ToLower"] = true
-							case "strings.TrimSuffix":
-								if len(call.Args) == 2 {
-									if tv, okT := pk.TypesInfo.Types[call.Args[1]]; okT && tv.Value != nil && tv.Value.ExactString() == "\".\"" {
-										have["strings.TrimSuffix(.)"] = true
-									}
-								}
-							}
-							return true
-						})
-						continue
-					}
-				}
-				if ifs, isIf := st.(*ast.IfStmt); isIf && strings.Contains(types.ExprString(ifs.Cond), "["+v.Name+"]") && endsWithReturn(ifs.Body) {
-					all := true
-					for k := range need {
-						if !have[k] {
-							all = false
-							missing = k
 						}
 					}
-					if all {
-						ok = true
+				}
+				var ks []string
+				for k := range need {
+					ks = append(ks, k)
+				}
+				sort.Strings(ks)
+				for _, k := range ks {
+					if !have[k] && why == "" {
+						why = "HostRuleConfLoad's duplicate test does not apply " + k + " to the host name although the trie key does: two configured names can collapse onto one key"
 					}
 				}
-				break
 			}
-			return true
 		})
 	}
-	if !ok {
-		if missing != "" {
-			return false, "HostRuleConfLoad's duplicate test does not apply " + missing + " to the host name although the trie key does: two configured names can collapse onto one key"
-		}
-		return false, "HostRuleConfLoad has no reject-duplicate test on the normalised host name"
+	if why != "" {
+		return false, why
+	}
+	if nStore == 0 {
+		return false, "HostRuleConfLoad has no store into the host map that the rule can find"
 	}
 	return true, ""
 }
@@ -355,7 +399,7 @@ func endsWithReturn(b *ast.BlockStmt) bool {
 }
 
 // classifyMapLoop returns the effects of one map-range loop that outlive an iteration.
-func classifyMapLoop(l mapLoop) []effect {
+func classifyMapLoop(l mapLoop, ix *confIdx) []effect {
 	info := l.pk.TypesInfo
 	local := map[types.Object]bool{}
 	var keyObj types.Object
@@ -440,8 +484,16 @@ func classifyMapLoop(l mapLoop) []effect {
 		return found
 	}
 	var effs []effect
-	add := func(kind, target string, pos token.Pos, sensitive, undecided bool, why string) {
-		effs = append(effs, effect{kind: kind, target: target, pos: pos, sensitive: sensitive, undecided: undecided, why: why})
+	// texpr is the expression the target names (nil when the target is not an expression)
+	add := func(kind, target string, texpr ast.Expr, pos token.Pos, sensitive, undecided bool, why string) {
+		ct := target
+		if texpr != nil {
+			ct = canonExpr(info, texpr)
+			if strings.HasPrefix(target, types.ExprString(texpr)) {
+				ct += target[len(types.ExprString(texpr)):]
+			}
+		}
+		effs = append(effs, effect{kind: kind, target: target, ctarget: ct, pos: pos, sensitive: sensitive, undecided: undecided, why: why})
 	}
 	// dupGuard: an earlier statement in an enclosing block of `at` rejects an existing M[key]
 	var dupGuard func(blockPath []*ast.BlockStmt, at ast.Stmt, m, k string) bool
@@ -513,11 +565,17 @@ func classifyMapLoop(l mapLoop) []effect {
 				if id, isI := call.Args[0].(*ast.Ident); len(call.Args) > 0 && isI && keyObj != nil && info.ObjectOf(id) == keyObj {
 					injective = !reassigned(l.rs.Body, info, keyObj)
 				}
-				add("ordered-sink", recv+"."+name, call.Pos(), !injective, false,
+				add("ordered-sink", recv+"."+name, sel.X, call.Pos(), !injective, false,
 					"keyed insert "+recv+"."+name+"("+k+", …) whose key is not the unmodified range key and has no reject-duplicate guard: when two entries map to the same key the survivor depends on map iteration order")
 				return true
 			}
-			add("outer-call", recv+"."+name, call.Pos(), false, true, "call of "+recv+"."+name+" on an object that outlives the loop; its effect cannot be classified by shape")
+			// a method that only reads (decided on its body, up to two calls deep): the call
+			// has no effect that could depend on the iteration order - e.g. a search loop
+			// extracted from the body into `s.productInHostTags(p)`
+			if sf := ix.p.SSA.FuncValue(fobj); sf != nil && ix.readOnlyFunc(sf, 2, map[*ssa.Function]bool{}) {
+				return true
+			}
+			add("outer-call", recv+"."+name, sel.X, call.Pos(), false, true, "call of "+recv+"."+name+" on an object that outlives the loop; its effect cannot be classified by shape")
 			return true
 		})
 	}
@@ -535,22 +593,22 @@ func classifyMapLoop(l mapLoop) []effect {
 					continue
 				}
 				// keyed store into a map
-				if ix, ok := lhs.(*ast.IndexExpr); ok {
-					if t := info.TypeOf(ix.X); t != nil {
-						if _, isMap := t.Underlying().(*types.Map); isMap && !isLocal(ix.X) {
-							m, k := types.ExprString(ix.X), types.ExprString(ix.Index)
+				if ix0, ok := lhs.(*ast.IndexExpr); ok {
+					if t := info.TypeOf(ix0.X); t != nil {
+						if _, isMap := t.Underlying().(*types.Map); isMap && !isLocal(ix0.X) {
+							m, k := types.ExprString(ix0.X), types.ExprString(ix0.Index)
 							target := m
 							switch {
 							case s.Tok != token.ASSIGN: // m[k] += v
-								add("keyed-accumulate", target, s.Pos(), false, false, "")
-							case identIs(ix.Index, info, keyObj) && !reassigned(l.rs.Body, info, keyObj):
-								add("keyed-store", target, s.Pos(), false, false, "keyed by the range key")
+								add("keyed-accumulate", target, ix0.X, s.Pos(), false, false, "")
+							case identIs(ix0.Index, info, keyObj) && !reassigned(l.rs.Body, info, keyObj):
+								add("keyed-store", target, ix0.X, s.Pos(), false, false, "keyed by the range key")
 							case rhs != nil && isConst(rhs):
-								add("keyed-store", target, s.Pos(), false, false, "stores a constant")
-							case dupGuard(path, st, m, k):
-								add("keyed-store", target, s.Pos(), false, false, "duplicate rejected before the store")
+								add("keyed-store", target, ix0.X, s.Pos(), false, false, "stores a constant")
+							case keyedStoreGuarded(l, ix0, func() bool { return dupGuard(path, st, m, k) }):
+								add("keyed-store", target, ix0.X, s.Pos(), false, false, "duplicate rejected before the store")
 							default:
-								add("keyed-store", target, s.Pos(), true, false, "store "+m+"["+k+"] = … where the key is not the range key, the value is not constant and no earlier test rejects an existing "+m+"["+k+"]: with duplicate keys the last writer wins and the winner depends on map iteration order")
+								add("keyed-store", target, ix0.X, s.Pos(), true, false, "store "+m+"["+k+"] = … where the key is not the range key, the value is not constant and no earlier test rejects an existing "+m+"["+k+"]: with duplicate keys the last writer wins and the winner depends on map iteration order")
 							}
 							continue
 						}
@@ -562,33 +620,36 @@ func classifyMapLoop(l mapLoop) []effect {
 				target := types.ExprString(lhs)
 				// x = append(x, …)
 				if call, ok := rhs.(*ast.CallExpr); ok && types.ExprString(call.Fun) == "append" {
-					if sortedAfter(target) {
-						add("append", target, s.Pos(), false, false, "sorted after the loop")
+					ac := builtinCallAt(l.ssa, "append", call.Lparen)
+					if sortedAfter(target) || (ac != nil && ix.flowsToSort(ac, 2, map[ssa.Value]bool{})) {
+						add("append", target, lhs, s.Pos(), false, false, "sorted after the loop")
+					} else if ac != nil && sliceOnlyErrorText(ac, map[ssa.Value]bool{}) {
+						add("append", target, lhs, s.Pos(), false, false, "the list is only counted and joined into an error / log message: its order does not influence what is accepted or built")
 					} else {
-						add("append", target, s.Pos(), true, false, "appends to "+target+", which outlives the loop and is not sorted afterwards in this function: element order follows map iteration order")
+						add("append", target, lhs, s.Pos(), true, false, "appends to "+target+", which outlives the loop and is not sorted afterwards in this function: element order follows map iteration order")
 					}
 					continue
 				}
 				if s.Tok != token.ASSIGN && s.Tok != token.DEFINE {
 					if b, ok := info.TypeOf(lhs).Underlying().(*types.Basic); ok && b.Info()&types.IsString != 0 {
-						add("concat", target, s.Pos(), true, false, "string concatenation onto "+target+" in map order")
+						add("concat", target, lhs, s.Pos(), true, false, "string concatenation onto "+target+" in map order")
 					} else {
-						add("accumulate", target, s.Pos(), false, false, "")
+						add("accumulate", target, lhs, s.Pos(), false, false, "")
 					}
 					continue
 				}
 				if rhs != nil && isConst(rhs) {
-					add("assign", target, s.Pos(), false, false, "constant")
+					add("assign", target, lhs, s.Pos(), false, false, "constant")
 					continue
 				}
-				add("assign", target, s.Pos(), true, false, "assigns a per-iteration value to "+target+", which outlives the loop: the last (or first) iteration wins")
+				add("assign", target, lhs, s.Pos(), true, false, "assigns a per-iteration value to "+target+", which outlives the loop: the last (or first) iteration wins")
 			}
 			for _, r := range s.Rhs {
 				checkCalls(r, st, path)
 			}
 		case *ast.IncDecStmt:
 			if !isLocal(s.X) {
-				add("accumulate", types.ExprString(s.X), s.Pos(), false, false, "")
+				add("accumulate", types.ExprString(s.X), s.X, s.Pos(), false, false, "")
 			}
 		case *ast.ExprStmt:
 			checkCalls(s.X, st, path)
@@ -608,16 +669,29 @@ func classifyMapLoop(l mapLoop) []effect {
 				}
 			}
 			if !allConst && !errRet {
-				add("return-element", "return", s.Pos(), true, false, "returns a value taken from the current iteration: the first matching entry in map order wins")
+				add("return-element", "return", nil, s.Pos(), true, false, "returns a value taken from the current iteration: the first matching entry in map order wins")
 			} else {
-				add("return", "return", s.Pos(), false, false, "")
+				add("return", "return", nil, s.Pos(), false, false, "")
 			}
 		case *ast.IfStmt:
 			if s.Init != nil {
 				walkStmt(s.Init, path)
 			}
 			checkCalls(s.Cond, st, path)
-			walk(s.Body.List, append(path, s.Body))
+			if keyEqualsConst(s.Cond, info, keyObj, isConst) && !reassigned(l.rs.Body, info, keyObj) {
+				// `if <range key> == <const>` (the if-chain spelling of the switch below): the
+				// branch fires for at most one map key, its effects are per-key
+				n := len(effs)
+				walk(s.Body.List, append(path, s.Body))
+				for i := n; i < len(effs); i++ {
+					if effs[i].kind == "assign" {
+						effs[i].sensitive = false
+						effs[i].why = "inside `if <range key> == <const>`: executed for at most one key"
+					}
+				}
+			} else {
+				walk(s.Body.List, append(path, s.Body))
+			}
 			if s.Else != nil {
 				switch e := s.Else.(type) {
 				case *ast.BlockStmt:
@@ -655,11 +729,11 @@ func classifyMapLoop(l mapLoop) []effect {
 			walkStmt(s.Stmt, path)
 		case *ast.DeclStmt, *ast.BranchStmt, *ast.EmptyStmt:
 		case *ast.GoStmt:
-			add("goroutine", "go", s.Pos(), false, true, "goroutine started per map entry")
+			add("goroutine", "go", nil, s.Pos(), false, true, "goroutine started per map entry")
 		case *ast.DeferStmt:
 			checkCalls(s.Call, st, path)
 		default:
-			add("statement", fmt.Sprintf("%T", st), st.Pos(), false, true, "statement form not classified")
+			add("statement", fmt.Sprintf("%T", st), nil, st.Pos(), false, true, "statement form not classified")
 		}
 	}
 	walk = func(stmts []ast.Stmt, path []*ast.BlockStmt) {
@@ -671,6 +745,63 @@ func classifyMapLoop(l mapLoop) []effect {
 	// drop the pure bookkeeping effects from the report list but keep them as discharged obligations
 	sort.SliceStable(effs, func(i, j int) bool { return effs[i].pos < effs[j].pos })
 	return effs
+}
+
+// keyedStoreGuarded decides "a test rejects an existing m[k] before the store" on the SSA form
+// (guards that hold at the store, whatever the spelling and shape of the test); the syntactic
+// test is only the fallback when the store cannot be located in the SSA form.
+func keyedStoreGuarded(l mapLoop, ix0 *ast.IndexExpr, syntactic func() bool) bool {
+	if mu := mapUpdateAt(l.ssa, ix0.Lbrack); mu != nil {
+		return dupRejected(mu)
+	}
+	return syntactic()
+}
+
+// keyEqualsConst: cond is `<range key> == <const>` (either operand order, parenthesised).
+func keyEqualsConst(cond ast.Expr, info *types.Info, keyObj types.Object, isConst func(ast.Expr) bool) bool {
+	for {
+		p, ok := cond.(*ast.ParenExpr)
+		if !ok {
+			break
+		}
+		cond = p.X
+	}
+	b, ok := cond.(*ast.BinaryExpr)
+	if !ok || b.Op != token.EQL || keyObj == nil {
+		return false
+	}
+	return (identIs(b.X, info, keyObj) && isConst(b.Y)) || (identIs(b.Y, info, keyObj) && isConst(b.X))
+}
+
+// canonExpr prints an expression with every identifier that names a local variable, a
+// parameter or a receiver replaced by its type in angle brackets (`fails` -> `<[]string>`,
+// `t.balTable` -> `<*BalTable>.balTable`): the result does not change when a local is renamed.
+func canonExpr(info *types.Info, e ast.Expr) string {
+	qual := func(p *types.Package) string { return p.Name() }
+	switch x := e.(type) {
+	case *ast.Ident:
+		if v, ok := info.ObjectOf(x).(*types.Var); ok && !v.IsField() && v.Pkg() != nil && v.Parent() != v.Pkg().Scope() {
+			return "<" + types.TypeString(v.Type(), qual) + ">"
+		}
+		return x.Name
+	case *ast.SelectorExpr:
+		return canonExpr(info, x.X) + "." + x.Sel.Name
+	case *ast.IndexExpr:
+		return canonExpr(info, x.X) + "[" + canonExpr(info, x.Index) + "]"
+	case *ast.StarExpr:
+		return "*" + canonExpr(info, x.X)
+	case *ast.ParenExpr:
+		return "(" + canonExpr(info, x.X) + ")"
+	case *ast.UnaryExpr:
+		return x.Op.String() + canonExpr(info, x.X)
+	case *ast.CallExpr:
+		var args []string
+		for _, a := range x.Args {
+			args = append(args, canonExpr(info, a))
+		}
+		return canonExpr(info, x.Fun) + "(" + strings.Join(args, ", ") + ")"
+	}
+	return types.ExprString(e)
 }
 
 func identOf(e ast.Expr) *ast.Ident {
